@@ -172,6 +172,7 @@ const (
 	OpStatus // note Status()/Written()/Size()
 	OpCookie // SetCookie
 	OpSeeSvc // note the application service seen through DI
+	OpSeeHeaders // note the response header keys present so far
 	opMax
 )
 
@@ -206,6 +207,9 @@ type Req struct {
 	Progs    [][]Act // by chain position
 	Rets     []Ret   // by chain position
 	WPlan    []WFault
+	FSPlan   []FSFault
+	FSMut    []FSMutation
+	ETagOf   *Req // take If-None-Match from the ETag this earlier request of the same task was answered with
 	Flusher  bool
 	Deadline int64 // virtual ticks after start; 0 none
 	PlannedCancel int // CancelAt as generated (Local.CancelAt is consumed during the run)
@@ -221,6 +225,7 @@ type Req struct {
 	started int64
 	AsyncCancelAt int // CIdx at which an asynchronous cancel landed; -1: none
 	rawCancel     func()
+	fsCalls       int
 }
 
 //go:norace
